@@ -88,6 +88,13 @@ SCENARIOS = [
     # dot-files and dot-directories are ordinary names for globs
     (["docs/.draft.md", "docs/.internal/i.md", "docs/v.md"], {}, ["docs/*.md"], ["docs/.draft.md", "docs/v.md"]),
     (["docs/.draft.md", "docs/.internal/i.md", "docs/v.md"], {}, ["docs/**/*.md"], ["docs/.draft.md", "docs/.internal/i.md", "docs/v.md"]),
+    # the ignore file that applies to a walk root is the nearest one above THAT root, whatever was looked up before for
+    # another argument (an ancestor without an ignore file, a sibling with one)
+    (["proj/a.md", "proj/docs/.flowmarkignore=skip.md\n", "proj/docs/skip.md", "proj/docs/k.md"], {}, ["proj/*.md", "proj/docs"], ["proj/a.md", "proj/docs/k.md"]),
+    (["p/x/.flowmarkignore=a.md\n", "p/x/a.md", "p/x/b.md", "p/y/a.md", "p/y/b.md", "p/top.md"], {}, ["p/*.md", "p/x", "p/y"],
+     ["p/top.md", "p/x/b.md", "p/y/a.md", "p/y/b.md"]),
+    (["q/.flowmarkignore=b.md\n", "q/sub/.flowmarkignore=a.md\n", "q/sub/a.md", "q/sub/b.md", "q/a.md", "q/b.md"], {}, ["q", "q/sub"],
+     ["q/a.md", "q/sub/a.md", "q/sub/b.md"]),
 ]
 
 
@@ -99,9 +106,10 @@ def scenarios(viol):
         root = os.path.join(base, "t")
         try:
             for f in files:
+                f, _, content = f.partition("=")
                 os.makedirs(os.path.dirname(os.path.join(root, f)), exist_ok=True)
                 with open(os.path.join(root, f), "w") as fh:
-                    fh.write("x")
+                    fh.write(content or "x")
             want = expect if expect is not None else [os.path.relpath(p, os.path.realpath(root)) for p in reference(root, cfg, None)]
             with in_dir(root):
                 for order in (list(args), list(reversed(args))):
@@ -224,7 +232,7 @@ def bounded(tier, seed):
         finally:
             shutil.rmtree(base, ignore_errors=True)
     return {"evaluations": evals, "distinct_nontrivial": len(distinct), "violations": viol, "samples": samples,
-            "rule": "(also: 9 hand-written scenarios -- same-named directories under a multi-segment exclusion, directories holding only sub-directories, force_exclude file + its directory in both orders, dot-names under globs; and glob completeness: **/*.md from the root finds every file of the reference walk) seeded trees (directories/files from fixed pools, nesting <= 3, symlinks to a file and a directory outside the tree and "
+            "rule": "(also: 12 hand-written scenarios (incl. ignore files below / beside earlier arguments) -- same-named directories under a multi-segment exclusion, directories holding only sub-directories, force_exclude file + its directory in both orders, dot-names under globs; and glob completeness: **/*.md from the root finds every file of the reference walk) seeded trees (directories/files from fixed pools, nesting <= 3, symlinks to a file and a directory outside the tree and "
                     "to a file inside, file sizes around the limit, also behind a symbolic link, a .flowmarkignore at the root (sometimes rule-less) and / or above it) x 10 settings (incl. multi-segment user exclusions and an empty exclude list, which switches the default exclusions off): traversal result == reference "
                     "walk written from the property; sorted/distinct/absolute; same result for permuted and duplicated arguments (also two directory arguments, one nested in a directory the outer walk prunes, in both orders), also when files are named again through '..' / relative spellings (no file twice, canonical paths); "
                     "explicit files bypass exclusions but not the size limit; glob results pass the same filters; distinct = distinct "
